@@ -173,6 +173,10 @@ def check(repo: Repo, run: Run) -> None:
     take_over(run, "c04", "C04", repo, lambda o: o["rule"] == "K6" and o["construct"] == "domain selection", "R0",
               "pairing domain of the helper class", "the trace-string records every request reads pair among themselves: if records "
               "of other classes share their windows, a string is reassembled from different records with and without a class filter", 1)
+    take_over(run, "c06", "C06", repo, lambda o: o["rule"] == "R3" and o["construct"] == "generator function", "R0",
+              "the tables are reset when a request is read", "a container parser that is not a generator reads the header - and resets "
+              "the shared thread/process tables - when the request is MADE: a request made while an earlier one is still unread "
+              "pulls the tables from under it", 2)
     take_over(run, "c08", "C08", repo, lambda o: o["rule"] == "R6", "R0", "decoders do not count records of other classes",
               "the records of classes that were not requested are not in the window of a filtered run: the same call then "
               "renders differently with and without the filter", 1)
